@@ -536,6 +536,10 @@ fn deviations(kind: &str) -> Vec<Dev> {
         d.push(Dev::Set("/sourcesContent".into(), json!(["1", "2", "3", "4", "5"])));
         d.push(Dev::Set("/sources".into(), json!([])));
         d.push(Dev::Set("/sources".into(), json!([null, null, null, null])));
+        // names that look like the beginning of a drive path or are just separators (the '~' prefix
+        // of rewrite classifies every source name)
+        d.push(Dev::Set("/sources".into(), json!(["c:", "/a/b", "c", ""])));
+        d.push(Dev::Set("/sources".into(), json!(["c:/", "C:\\y", "/", "//"])));
         d.push(Dev::Set("/names".into(), json!([])));
         d.push(Dev::Set("/names".into(), json!([1, 2.5, true, null, {"a": 1}])));
         d.push(Dev::Set("/file".into(), json!({"not": "a string"})));
